@@ -156,7 +156,9 @@ class Runner:
                 with res.lock:
                     res.viol.append({'key': crash_key(err, rc, exe) + ':outside-case', 'case': case, 'msg': err[-1500:], 'replay': dict(ctx, case=cur)})
                 break
-            if rc == 77:
+            if rc == 79:
+                pass   # deadlock/livelock already reported through a VIOL line by the harness
+            elif rc == 77:
                 # CPU budget exceeded: re-run alone once before calling it a hang
                 rc2, out2, err2 = self._one(exe, base_args + ['--seed', str(self.seed), '--only', str(case)] + (['--thorough'] if self.thorough else []), env, casefile)
                 with res.lock:
